@@ -3,11 +3,15 @@ CONSTANTS
   NU = 6
   NS = 2
   MaxN = 6
+  CropN = 5
   Sub = 2
   Ext = 10
-  ExtNs = {1, 2, 3, 5}
+  ExtNs = {1, 2, 3}
+  ChainNU = 4
+  ChainNs = {1, 3}
   Algo = "arange_int"
   ExtFilter = TRUE
+  RangeFrom = "index"
 CONSTRAINT Export
 INVARIANT ImplCrop
 INVARIANT LawCropContiguous
@@ -20,5 +24,9 @@ INVARIANT LawExtendIsInterval
 INVARIANT ImplExactlyWidth
 INVARIANT ImplPlacement
 INVARIANT LawOffs
+INVARIANT NeverOffLattice
+INVARIANT ImplChain
+INVARIANT LawChainExact
+INVARIANT LawChainKeepsOriginals
 PROPERTY Terminates
 CHECK_DEADLOCK FALSE
